@@ -234,8 +234,11 @@ def run(ck):
         cases = rpc_common.run_script(ck, binp, [replayed])
         ck.log("replaying %s: %d case(s)" % (ck.replay, len(cases)))
     elif binp:
-        rc, out, err = vlib.sh2([binp, "-seed", str(ck.seed), "-n", str(n), "-stress", "1" if not ck.thorough else "10"],
-                                timeout=3000)
+        # (on a defective tree every hang costs observation bounds: a stream is cut short after 4 hangs and
+        #  no case is started after the wall-clock budget; what was observed until then is reported)
+        budget = 150 if not ck.thorough else 900
+        rc, out, err = vlib.sh2([binp, "-seed", str(ck.seed), "-n", str(n), "-stress", "1" if not ck.thorough else "10",
+                                 "-budget", str(budget)], timeout=budget + 240)
         if rc != 0:
             ck.broken.append({"what": "harness run failed", "detail": err[-1500:]})
         for line in out.splitlines():
@@ -248,7 +251,8 @@ def run(ck):
         rb = ck.build_harness("c03", race=True)
         if rb:
             nr = 40 if not ck.thorough else 400
-            rc, out, err = vlib.sh2([rb, "-seed", str(ck.seed + 1), "-n", str(nr), "-child"], timeout=3000)
+            rc, out, err = vlib.sh2([rb, "-seed", str(ck.seed + 1), "-n", str(nr), "-child",
+                                     "-budget", "60" if not ck.thorough else "600"], timeout=900)
             races = err.count("WARNING: DATA RACE")
             ck.coverage["race_detector_runs"] = nr
             ck.coverage["data_races"] = races
@@ -258,6 +262,16 @@ def run(ck):
 
     kinds = {}
     shrunk = set()
+    skipped = [c for c in cases if c.get("skipped")]
+    cases = [c for c in cases if not c.get("skipped")]
+    if skipped:
+        by = {}
+        for c in skipped:
+            k = "%s: %s" % (c["stream"], {"hangs": "stream cut short after 4 hangs",
+                                          "budget": "wall-clock budget of the harness run used up"}.get(c["skipped"], c["skipped"]))
+            by[k] = by.get(k, 0) + 1
+        ck.coverage["cases_not_run"] = by
+        ck.log("cases not run: %s" % by)
     for c in cases:
         nframes = len(c.get("frames", []))
         trivial = len(c.get("callers", [])) <= 1 and nframes <= 1 and c["stream"] not in ("stress", "page")
@@ -268,7 +282,8 @@ def run(ck):
             kinds[f["kind"]] = kinds.get(f["kind"], 0) + 1
         for key, why in impl_oracle(c):
             small = c
-            if binp and replayed is None and key not in shrunk and len(shrunk) < 3:
+            if binp and replayed is None and key not in shrunk and len(shrunk) < 3 and key != "hang" \
+                    and not c.get("hang"):        # (a history that hangs costs bounds at every trial)
                 shrunk.add(key)
                 small = rpc_common.shrink(ck, binp, c, key, impl_oracle)
             ck.violation("impl:%s" % key, why,
